@@ -70,7 +70,7 @@ def run_case(desc):
     c = sc.prepare(desc, out)
     if c is None:
         return out
-    ok, r = call(lambda: (lambda an: (an.get_space_group_number(), an.get_conventional_system()))(SymmetryAnalyzer(c.at, symmetry_tol=sc.TOL)))
+    ok, r = call(lambda: (lambda an: (an.get_space_group_number(), an.get_conventional_system()))(sc.analyzer_for(c, desc, out)))
     if not ok:
         return out.fail("returns-normally", "%r" % r, key="exc:" + exc_key(r))
     sgn, conv = r
